@@ -379,6 +379,17 @@ def selftest_recordings():
     case("C14", "libtest-suite-total-off-by-one", src, "Trace_Reporters.tla", "Trace_U.cfg", total_off,
          lambda v: bool(v["bad"]))
 
+    def lt_info(key):
+        def f(r):
+            r["info"]["libtest"][key] = 1
+            return True
+        return f
+    case("C14", "libtest-two-features-under-one-prefix", src, "Trace_Reporters.tla", "Trace_U.cfg",
+         lt_info("feature_clash"),
+         lambda v: any(b[1] == "scenarios-of-different-features-listed-under-one-feature" for b in v["bad"]))
+    case("C14", "libtest-started-name-repeated", src, "Trace_Reporters.tla", "Trace_U.cfg", lt_info("dup_started"),
+         lambda v: any(b[1] == "two-started-lines-with-the-same-name" for b in v["bad"]))
+
     # C18 retry options
     src = _needs(os.path.join(WORK, "c18_out.ndjson"), "C18")
 
